@@ -50,6 +50,25 @@ def st_case(draw):
             "debug": draw(st.integers(0, 2))}
 
 
+def _has_unordered_input(v):
+    if isinstance(v, list):
+        return any(_has_unordered_input(x) for x in v)
+    if isinstance(v, dict):
+        if v.get("$") in ("set", "fset") and len(v["v"]) >= 2:
+            return True
+        return any(_has_unordered_input(x) for x in v.values())
+    return False
+
+
+def _unord(c):
+    """Order-insensitive image of a tspec.canon value."""
+    if isinstance(c, tuple):
+        kids = sorted((_unord(x) for x in c[1:]), key=repr) if c and isinstance(c[0], str) else \
+            sorted((_unord(x) for x in c), key=repr)
+        return (c[0], *kids) if c and isinstance(c[0], str) else tuple(kids)
+    return c
+
+
 def leaf_tag_at_fault(t):
     return tspec.strip(t)[0]
 
@@ -120,6 +139,11 @@ def check_one(ctx: runner.Ctx, case):  # noqa: C901, PLR0912
         ctx.violation("accepted_undocumented_input", (_blame(t, case["strict"]),), case,
                       f"{head} datum={datum!r}: the documented rule rejects it; adaptix returned {got!r}")
     elif not refload.matches(verdict, got):
+        if _has_unordered_input(case["datum"]) and len(verdict) == 2 and _unord(tspec.canon(verdict[1])) == _unord(tspec.canon(got)):
+            # a set fed into an ordered target: the element order is the iteration order of that set object, which
+            # depends on addresses for identity-hashed members (Decimal('NaN')) and differs between two builds of the datum
+            ctx.count("set_input_order_unspecified")
+            return
         ctx.violation("loaded_value_differs", (_blame(t, case["strict"]),), case,
                       f"{head} datum={datum!r}: documented result {verdict[1]!r}; adaptix returned {got!r}")
 
